@@ -51,7 +51,8 @@ C06PredAvail(p, a) == C06Bounds(p) \subseteq C06Sat(a)
 
 \* ---- C07
 C07Kinds == {"static", "dyn"}
-C07WellFormed(p) == (p.async = "native" => p.kind = "static")
+\* mixed: an async_trait trait that ALSO has a synchronous method (the `+ Sync` decisions are per trait, not per method)
+C07WellFormed(p) == (p.async = "native" => p.kind = "static") /\ (p.mixed => p.async = "async_trait")
 \* Level 2: Impl<T>'s method i (fourth and fifth call shapes), then the target trait impl generated from the
 \* impl block (fn_delegation_codegen with ImplIndirection::Static / Dynamic): Self::m(__impl, args)
 C07Body(p, i) == [via |-> IF p.kind = "static" THEN "Target" ELSE "dynref", callee |-> MName(i), passImpl |-> TRUE, await |-> p.async # "no"]
